@@ -238,9 +238,9 @@ def judge(cases, short_static=0, with_source=True):
                     continue
                 txt = seen[name]
                 if txt is None:
-                    # no initialiser printed: acceptable only for the default value of the type
-                    if v in (0, False, None, ""):
-                        continue
+                    # the statement: 'the decompiler prints the same value in the field initialiser' - a field that HAS an encoded
+                    # value must be printed WITH an initialiser (also when the value is the type's default: an explicit
+                    # 'false' / 0 is data of the file)
                     out.append((case, klass(case, "source") + ":no-initialiser", "field %s (%r) printed without initialiser" % (name, case)))
                     continue
                 got = parse_src_value(txt)
@@ -283,6 +283,81 @@ BATCH = 24
 def batches():
     cs = all_cases()
     return [cs[i:i + BATCH] for i in range(0, len(cs), BATCH)]
+
+
+# ---- declared field type x encoded value: the value's own type decides how it is printed, not the field's declared type
+FT_CASES = [(ft, kind, v) for ft in ("Ljava/lang/String;", "Ljava/lang/Object;", "Ljava/lang/CharSequence;", "[I", "Lp/En;")
+            for kind, v in (("null", None), ("string", "AStr"), ("string", ""), ("string", 'q"x\\y'), ("string", "true"), ("string", "0"))
+            if not (kind == "string" and ft in ("[I", "Lp/En;"))] + \
+           [("Z", "boolean", False), ("Z", "boolean", True), ("I", "int", 0), ("J", "long", 0), ("C", "char", 0), ("B", "byte", 0), ("S", "short", 0)]
+
+
+def judge_ftypes(order):
+    """all FT_CASES as static fields of one class (order 0: as listed, 1: reversed, so that each default value is once followed
+    and once preceded by non-default ones); parsed value and BOTH printers (get_source, get_source_ext) are judged"""
+    from gen import dexgen as G
+    from ref import javalex
+    from androguard.core import dex
+    from androguard.core.analysis.analysis import Analysis
+    from androguard.decompiler.decompile import DvClass
+    cases = FT_CASES[::-1] if order else FT_CASES
+    out = []
+    fields = [G.Field("f%03d" % i, ft, G.ACC_STATIC | G.ACC_PUBLIC) for i, (ft, _, _) in enumerate(cases)]
+    sv = [G.EV(kind, v, None if kind in ("null", "boolean") else (1 if kind != "long" else 1)) for _, kind, v in cases]
+    raw = G.build(G.Dex([G.Class("Lp/V;", sfields=fields, static_values=sv)]))
+
+    def denote(txt, kind):
+        t = txt.strip()
+        if t.startswith('"'):
+            try:
+                return "".join(chr(u) for u in javalex.read_string_literal(t))
+            except Exception as e:      # noqa
+                return ("bad-literal", t, str(e))
+        if t in ("null", "None"):
+            return None
+        if t.lower() in ("true", "false") and kind == "boolean":
+            return t.lower() == "true"
+        try:
+            return int(t, 0)
+        except ValueError:
+            return ("unparsed", t)
+    try:
+        vm = dex.DEX(raw)
+        c = vm.get_classes()[0]
+        fs = {f.get_name(): f for f in c.get_fields()}
+        src = DvClass(c, Analysis(vm))
+        src.process()
+        seen = {}
+        for line in src.get_source().splitlines():
+            m = _SRC_RE.match(line)
+            if m:
+                seen[m.group(2)] = m.group(3)
+        seen_ext = {}
+        for tag, toks in src.get_source_ext():
+            if tag == "FIELD":
+                nm = [t[1] for t in toks if t[0] == "NAME_FIELD"][0]
+                val = [t[1] for t in toks if t[0] == "FIELD_VALUE"]
+                seen_ext[nm] = val[0].split("=", 1)[1] if val and "=" in val[0] else None
+        for i, (ft, kind, v) in enumerate(cases):
+            name = "f%03d" % i
+            cls = "%s-in-%s" % (kind if v not in ("", 0, False) or kind == "null" else kind + "-default", ft.strip("L;[").split("/")[-1] or ft)
+            iv = fs[name].get_init_value()
+            got = iv.get_value() if iv is not None else "<missing>"
+            if got != v or type(got) != type(v):
+                out.append(("ftype:static:" + cls, "%s %s: parsed value %r, encoded %r" % (ft, name, got, v)))
+            for api, tbl in (("source", seen), ("source_ext", seen_ext)):
+                if name not in tbl:
+                    out.append(("ftype:%s:%s:field-missing" % (api, cls), "%s %s not in %s" % (ft, name, api)))
+                elif tbl[name] is None:
+                    out.append(("ftype:%s:%s:no-initialiser" % (api, cls), "%s %s = %r printed without initialiser by %s" % (ft, name, v, api)))
+                else:
+                    d = denote(tbl[name], kind)
+                    if d != v or type(d) != type(v):
+                        out.append(("ftype:%s:%s" % (api, cls), "%s %s: %s prints '%s' which denotes %r, encoded %s %r" % (ft, name, api, tbl[name].strip(), d, kind, v)))
+    except Exception:     # noqa
+        import traceback
+        out.append(("ftype:exception", traceback.format_exc()[-800:]))
+    return out
 
 
 def shared_cases():
@@ -336,7 +411,7 @@ def judge_shared(case):
 
 def shards(ctx):
     n = len(batches())
-    return [(i, s) for i in range(n) for s in (0, 1)] + [("shared", 0)]
+    return [(i, s) for i in range(n) for s in (0, 1)] + [("shared", 0), ("ftypes", 0)]
 
 
 def space(ctx):
@@ -345,7 +420,10 @@ def space(ctx):
     for c in cs:
         by[c[0]] = by.get(c[0], 0) + 1
     return {"cases": len(cs), "by_kind": by, "positions": ["static value", "annotation element", "decompiled initialiser"],
-            "static_array": ["full length", "shorter than the field list (last 3 fields default)"], "index_padding": NPAD}
+            "static_array": ["full length", "shorter than the field list (last 3 fields default)"], "index_padding": NPAD,
+            "declared_type_x_value": {"cases": len(FT_CASES), "field_types": ["String", "Object", "CharSequence", "int[]", "enum type", "primitives"],
+                                      "values": ["null", "strings incl. empty / quote+backslash / 'true' / '0'", "explicit default of every primitive"],
+                                      "orders": 2, "printers": ["get_source", "get_source_ext"]}}
 
 
 def tojson(case):
@@ -373,6 +451,15 @@ def fromjson(j):
 def run_shard(ctx, shard):
     acc = Acc()
     i, short = shard
+    if i == "ftypes":
+        for order in (0, 1):
+            res = judge_ftypes(order)
+            for k, (ft, kind, v) in enumerate(FT_CASES):
+                acc.case(nontrivial=repr(("ftype", order, k)), outcome="ftype:%s:%s" % (kind, ft))
+            for key, msg in res:
+                acc.violation(key, {"ftypes": order}, msg)
+        acc.sample({"declared_type_x_value": [list(c) for c in FT_CASES[:4]]})
+        return acc
     if i == "shared":
         for case in shared_cases():
             res = judge_shared(case)
@@ -396,6 +483,9 @@ def run_shard(ctx, shard):
 
 
 def replay(ctx, w):
+    if "ftypes" in w:
+        res = judge_ftypes(w["ftypes"])
+        return "\n".join("%s: %s" % r for r in res) if res else None
     if "shared" in w:
         res = judge_shared(tuple(w["shared"]))
         return "\n".join("%s: %s" % r for r in res) if res else None
